@@ -224,6 +224,15 @@ impl Policy for HPolicy {
 
 /// `class`: 0 everything, 1 only the recorded finding's class (truncate mode), 2 everything else.
 pub fn body_appender(pre: bool, class: u8, witness: bool) {
+    body_appender_gen(pre, class, None, witness)
+}
+
+/// Constant-size variant: the three record lengths are instance parameters (DESIGN.md 9.8, rule 23).
+pub fn body_appender_sized(pre: bool, class: u8, lens: (usize, usize, usize), witness: bool) {
+    body_appender_gen(pre, class, Some(lens), witness)
+}
+
+pub fn body_appender_gen(pre: bool, class: u8, lens: Option<(usize, usize, usize)>, witness: bool) {
     fs::reset();
     #[cfg(kani)]
     crate::wfile::reset();
@@ -248,7 +257,10 @@ pub fn body_appender(pre: bool, class: u8, witness: bool) {
     };
     let record = Record::builder().build();
     // record 1: acknowledged, no roll
-    let l1 = 1 + sym::below(2) as usize;
+    let l1 = match lens {
+        Some(l) => l.0,
+        None => 1 + sym::below(2) as usize,
+    };
     unsafe {
         REC_LEN = l1;
         REC_VAL = 1;
@@ -256,7 +268,10 @@ pub fn body_appender(pre: bool, class: u8, witness: bool) {
     assert!(app.append(&record).is_ok());
     // record 2: the policy wants to roll, the archive name is obstructed
     fs::put_obstacle(archive);
-    let l2 = 1 + sym::below(2) as usize;
+    let l2 = match lens {
+        Some(l) => l.1,
+        None => 1 + sym::below(2) as usize,
+    };
     unsafe {
         REC_LEN = l2;
         REC_VAL = 2;
@@ -269,7 +284,10 @@ pub fn body_appender(pre: bool, class: u8, witness: bool) {
     unsafe {
         ROLL_NOW = false;
     }
-    let l3 = 1 + sym::below(2) as usize;
+    let l3 = match lens {
+        Some(l) => l.2,
+        None => 1 + sym::below(2) as usize,
+    };
     unsafe {
         REC_LEN = l3;
         REC_VAL = 3;
@@ -337,6 +355,10 @@ harnesses! {
     #[kani::unwind(8)]
     #[kani::stub(<anyhow::Error as std::convert::From<std::io::Error>>::from, crate::util::stub_anyhow_from_cut)]
     fn fault_roller_c3() { body_roller(3, false) }
+    #[kani::unwind(10)]
+    fn fault_appender_post_sized() { body_appender_sized(false, 0, (2, 1, 2), false) }
+    #[kani::unwind(10)]
+    fn fault_appender_post_sized_witness() { body_appender_sized(false, 0, (2, 1, 2), true) }
     #[kani::unwind(10)]
     fn fault_appender_post() { body_appender(false, 2, false) }
     #[kani::unwind(10)]
